@@ -8,7 +8,7 @@ Open Scope Z_scope.
 
 Definition inj (o : RevBlk.op) : op :=
   match o with RevBlk.OF a b => OF a b | RevBlk.OB a b => OB a b | RevBlk.ORM i => ORM i | RevBlk.OWM i => OWM i
-  | RevBlk.ODM i => ODM i | RevBlk.OWFM i => OWFM i | RevBlk.ODFM i => ODFM i end.
+  | RevBlk.ODM i => ODM i | RevBlk.OWFM i => OWFM i | RevBlk.ODFM i => ODFM i | RevBlk.ORD i => ORD i | RevBlk.OWD i => OWD i end.
 Definition cmap (c : RevBlk.cst) : cst :=
   {| n_ := RevBlk.n_ c; r_ := RevBlk.r_ c; snaps := RevBlk.snaps c; w_storage := RevBlk.w_st c; write_ics := RevBlk.w_ics c;
      adj_deps := RevBlk.w_adj c; w_n0 := RevBlk.w_n0 c |}.
@@ -24,8 +24,8 @@ Lemma nth_error_skipn {A} : forall (l : list A) i k, nth_error (skipn i l) k = n
 Proof. induction l as [|x l IH]; intros [|i] k; cbn [skipn Nat.add]; auto; [destruct k; reflexivity|apply IH]. Qed.
 
 Lemma conv_n0_inj o : wf o -> conv_n0_st (inj o) =
-  Ok (match o with RevBlk.OF a _ | RevBlk.OB a _ | RevBlk.ORM a | RevBlk.OWM a | RevBlk.ODM a | RevBlk.OWFM a | RevBlk.ODFM a => a end,
-      match o with RevBlk.OF _ _ | RevBlk.OB _ _ => None | RevBlk.ORM _ | RevBlk.OWM _ | RevBlk.ODM _ => Some RAM | _ => Some WORK end).
+  Ok (match o with RevBlk.OF a _ | RevBlk.OB a _ | RevBlk.ORM a | RevBlk.OWM a | RevBlk.ODM a | RevBlk.OWFM a | RevBlk.ODFM a | RevBlk.ORD a | RevBlk.OWD a => a end,
+      match o with RevBlk.OF _ _ | RevBlk.OB _ _ => None | RevBlk.ORM _ | RevBlk.OWM _ | RevBlk.ODM _ => Some RAM | RevBlk.ORD _ | RevBlk.OWD _ => Some DISK | _ => Some WORK end).
 Proof.
   destruct o; cbn [inj conv_n0_st wf]; intros H; try reflexivity.
   - destruct (Z.leb_spec b a); [lia|reflexivity].
@@ -45,11 +45,11 @@ Proof.
   unfold conv1. rewrite nth_error_inj, Hnth. cbn [option_map]. rewrite (conv_n0_inj o Hwo). cbn [bind].
   assert (Hpv : match i with O => last_op (map inj L0) | S j => nth_error (map inj L0) j end = Some (inj prev)).
   { destruct i as [|j]; [rewrite last_op_inj, Hprev; reflexivity|rewrite nth_error_inj]. cbn [prevop] in Hprev. rewrite Hprev. reflexivity. }
-  destruct o as [a b|a b|a|a|a|a|a]; cbn [inj RevBlk.conv1] in *.
+  destruct o as [a b|a b|a|a|a|a|a|a|a]; cbn [inj RevBlk.conv1] in *.
   - (* OF *)
     cbn [n_ cmap]. destruct (negb (a =? RevBlk.n_ c)); [discriminate|].
     rewrite Hpv. rewrite (conv_n0_inj prev Hwp). cbn [bind].
-    destruct prev as [pa pb|pa pb|pa|pa|pa|pa|pa]; cbn [inj] in *.
+    destruct prev as [pa pb|pa pb|pa|pa|pa|pa|pa|pa|pa]; cbn [inj] in *.
     all: repeat match type of H with context [if ?b then _ else _] => destruct b eqn:? end; try discriminate;
          injection H as <- <-; cbn [bind upd cmap r_ n_ snaps w_storage write_ics adj_deps w_n0 RevBlk.n_ RevBlk.r_ RevBlk.snaps RevBlk.w_st RevBlk.w_ics RevBlk.w_adj RevBlk.w_n0];
          unfold set_add, RevBlk.mem in *; cbn [RevBlk.n_ RevBlk.r_ RevBlk.snaps] in *;
@@ -70,13 +70,18 @@ Proof.
     rewrite nth_error_inj. destruct (nth_error L0 (i + 3)) as [d|] eqn:Ed; [|discriminate]. cbn [option_map].
     assert (Hwd : wf d) by (rewrite Forall_forall in Hwf; apply Hwf; eapply nth_error_In; eauto).
     rewrite (conv_n0_inj d Hwd). cbn [bind].
-    destruct d as [da db|da db|da|da|da|da|da]; cbn [inj andb st_opt_eqb st_eqb] in *.
+    destruct d as [da db|da db|da|da|da|da|da|da|da]; cbn [inj andb st_opt_eqb st_eqb] in *.
     all: cbn [w_n0 cmap RevBlk.w_n0] in *.
     all: repeat match type of H with
          | context [if ?b then _ else _] => destruct b eqn:?
          | context [match RevBlk.w_n0 ?x with _ => _ end] => destruct (RevBlk.w_n0 x) eqn:?
          end; try discriminate; injection H as <- <-; cbn [andb]; try reflexivity.
   - (* ODFM *)
+    cbn [n_ cmap]. destruct (negb _); [discriminate|]. injection H as <- <-. reflexivity.
+  - (* ORD *)
+    cbn [n_ r_ snaps cmap]. unfold RevBlk.mem, RevBlk.del in H.
+    repeat match type of H with context [if ?b then _ else _] => destruct b eqn:? end; try discriminate; injection H as <- <-; reflexivity.
+  - (* OWD *)
     cbn [n_ cmap]. destruct (negb _); [discriminate|]. injection H as <- <-. reflexivity.
 Qed.
 
